@@ -335,6 +335,38 @@ def evaluate(scn: dict, order: list, memo: dict | None = None) -> dict:
                              "tokens, and the waiting area never needed more than "
                              f"{exp.max_waiting} slots", order[:k + 1]))
 
+    def check_waiting(k: int, exp: ref.Expect) -> None:
+        """the waiting area against the signed-but-unconnected tokens offered up to and including step k."""
+        nonlocal step_failed
+        have = set(tree.elements.keys())
+        if step_failed or have != exp.contained:
+            return
+        waiting = {_th(t) for t in tree.unchained}
+        hist = labels[:k + 1]
+        if exp.max_waiting <= cap and waiting != exp.waiting:
+            step_failed = True
+            detail = ("holds-unsigned" if waiting - set(exp.valid) else
+                      "holds-contained" if waiting & exp.contained else
+                      "lost-waiting-token" if exp.waiting - waiting else "holds-unknown")
+            affected = (waiting - set(exp.valid)) or (waiting & exp.contained) or (exp.waiting - waiting) or waiting
+            tag = "+".join(sorted({cls_of.get(h, "unknown") for h in affected}))
+            if detail == "holds-contained":
+                # a contained token still listed as waiting: did it wait next to a sibling (same defect class as
+                # missing-connected-token:fork-before-parent, made visible by a later duplicate)?
+                c = _cause_of_missing(offered[:k + 1], exp, have - (waiting & have), waiting & have)
+                tag = c if c != "other" else tag
+            viol.append((f"waiting-area-mismatch:{detail}:{tag}",
+                         head + f"after offering {hist} the waiting area holds {_names(waiting, name_of)}, the signed-"
+                         f"but-unconnected offered tokens are {_names(exp.waiting, name_of)}, and never more than "
+                         f"{exp.max_waiting} distinct tokens had to wait", order[:k + 1]))
+        elif exp.max_waiting > cap and (waiting - set(exp.valid)):
+            step_failed = True
+            tag = "+".join(sorted({cls_of.get(h, "unknown") for h in waiting - set(exp.valid)}))
+            viol.append((f"waiting-area-mismatch:holds-unsigned:{tag}",
+                         head + f"after offering {hist} the waiting area holds "
+                         f"{_names(waiting - set(exp.valid), name_of)}", order[:k + 1]))
+
+
     if via == "gather":
         for k, it in enumerate(offered):
             tok = make_token(it, mat.pub)
@@ -362,6 +394,7 @@ def evaluate(scn: dict, order: list, memo: dict | None = None) -> dict:
                              f"{labels[:k + 1]}", order[:k + 1]))
             trace.append((r is not None, len(tree.elements), len(tree.unchained)))
             compare(k, exp)
+            check_waiting(k, exp)
         ret = None
     else:
         data = b"".join(o.wire for o in offered)
@@ -391,27 +424,8 @@ def evaluate(scn: dict, order: list, memo: dict | None = None) -> dict:
         if k_ != _th(t):
             viol.append(("elements-key-mismatch", head + f"elements[{k_.hex()[:8]}] stores {name_of.get(_th(t))}", full))
 
-    # waiting area
-    if not step_failed and have == exp.contained:
-        if not overflow and waiting != exp.waiting:
-            detail = ("holds-unsigned" if waiting - set(exp.valid) else
-                      "holds-contained" if waiting & exp.contained else
-                      "lost-waiting-token" if exp.waiting - waiting else "holds-unknown")
-            affected = (waiting - set(exp.valid)) or (waiting & exp.contained) or (exp.waiting - waiting) or waiting
-            tag = "+".join(sorted({cls_of.get(h, "unknown") for h in affected}))
-            if detail == "holds-contained":
-                # a contained token still listed as waiting: did it wait next to a sibling (same defect class as
-                # missing-connected-token:fork-before-parent, made visible by a later duplicate)?
-                c = _cause_of_missing(offered, exp, have - (waiting & have), waiting & have)
-                tag = c if c != "other" else tag
-            viol.append((f"waiting-area-mismatch:{detail}:{tag}",
-                         head + f"after {labels} the waiting area holds {_names(waiting, name_of)}, signed-but-"
-                         f"unconnected offered tokens are {_names(exp.waiting, name_of)}", full))
-        if overflow and (waiting - set(exp.valid)):
-            tag = "+".join(sorted({cls_of.get(h, "unknown") for h in waiting - set(exp.valid)}))
-            viol.append((f"waiting-area-mismatch:holds-unsigned:{tag}",
-                         head + f"after {labels} the waiting area holds {_names(waiting - set(exp.valid), name_of)}",
-                         full))
+    if via != "gather":
+        check_waiting(len(offered) - 1, exp)      # gather mode did this after every arrival
 
     # verify / get_root_path: only read ``elements`` and the token, so once per reached element set is enough
     vkey = ("verify", id(mat), tuple(map(tuple, scn["extras"])), frozenset(order), frozenset(have))
@@ -718,6 +732,18 @@ def build_scenarios(ctx: core.Ctx) -> tuple[list[dict], dict]:
         for p in unlabelled_shapes(n):
             for e in extras_for(p):
                 scns.append(scenario("cap2-intruder", cv, owner, foreign, p, [e], cap=2))
+    # C': a duplicate of a token that is already waiting, with the waiting area at 1, 2 or 3 slots: all orders of
+    # (shape + one duplicate) contain every "fill the area exactly, repeat one waiting token (bare / with content),
+    # then deliver the missing ancestors in any order" history; distinct waiting tokens never exceed the bound there
+    b["cap_dup"] = {"capacities": [1, 2, 3], "unlabelled_n_max": 5 if T else 4}
+    for c in b["cap_dup"]["capacities"]:
+        for n in range(1, b["cap_dup"]["unlabelled_n_max"] + 1):
+            if c == 2 and n <= b["cap2"]["with_one_intruder_n_max"]:
+                continue        # already in cap2-intruder
+            for p in unlabelled_shapes(n):
+                for t in range(n):
+                    for var in ("bare", "content"):
+                        scns.append(scenario("cap-dup", cv, owner, foreign, p, [("dup", t, var)], cap=c))
     # G: other curves (other signature and chunk lengths)
     b["other_curves"] = {"curves": ["very-low", "medium"] if T else ["very-low"], "labelled_n_max": 4 if T else 3,
                          "intruder_n_max": 2}
